@@ -100,7 +100,7 @@ def _run(chk):
             print(f'[timing] {what}: {time.time() - _t[0]:.1f}s', file=sys.stderr)
         _t[0] = time.time()
     TV.translate_into(chk)  # never raises: a failed dump is a reported item, the previous tables stay
-    chk.lean_build(['PeptVerif.Props.C15', 'PeptVerif.Props.C15Glycan'], DRV)
+    chk.lean_build(['PeptVerif.Props.C15', 'PeptVerif.Props.C15Glycan', 'PeptVerif.Props.C15Ext'], DRV)
     lap('build')
     chk.trusted += [
         'translate_vocab.py: element tables (ISOTOPIC_ATOMIC_MASSES, AVERAGE_ATOMIC_MASSES, HILL_ORDER, particle masses) and the '
@@ -345,9 +345,20 @@ def _run(chk):
             idx = [K.HILL_ORDER.get(k, 10000) for k in keys]
             if idx != sorted(idx):
                 return f'hill_order output {w!r} is not in Hill order'
+            # stability (theorem C15Ext.hill_stable): keys with the same Hill index keep the dict order of the composition
+            for n in set(idx):
+                got = [k for k, i in zip(keys, idx) if i == n]
+                want = [k for k in dz if K.HILL_ORDER.get(k, 10000) == n]
+                if got != want:
+                    chk.count('hill_ties_checked')
+                    return f'hill_order output {w!r}: keys of Hill index {n} come as {got}, the composition has them as {want}'
+                if len(got) >= 2:
+                    chk.count('hill_ties_checked')
         return None
 
-    osel = wcases if big else wcases[::2]
+    # quick tier: half of the cases, chosen so that both values of hill_order and every separator are evaluated
+    # (wcases[::2] would keep hill_order=False only: the index is 6*composition + 2*separator + hill)
+    osel = wcases if big else [c for i, c in enumerate(wcases) if (i // 6 + (i // 2) % 3 + i % 2) % 2 == 0]
     chk.oracle('parse_write_roundtrip', osel, o_roundtrip, nontrivial_fn=lambda c: len(drop_zeros(c[0])) >= 2,
                key_fn=lambda c: repr(c))
 
